@@ -1,39 +1,40 @@
 /-
   OdfModel.Pkg — model of the package layer of odf/opendocument.py (properties C03, C16).
 
-  Modelled, statement by statement (tree as of the `fix:` commits, in particular b8fd72d, 87ffca7, 31ca861):
+  Modelled, statement by statement (tree as of the `fix:` commits b8fd72d, 87ffca7, 31ca861, f4df084, 0372084):
 
   * `OpenDocument.__zipwrite`        → `save`
         mimetype member (ZIP_STORED, ZipInfo without extra) ; `_saveXmlObjects(self, "")` ;
         `_savePictures(self, "")` ; thumbnail ("Thumbnails/" + "Thumbnails/thumbnail.png") ;
-        `_extra` except META-INF/documentsignatures.xml ; META-INF/manifest.xml last.
+        `_allExtras(self)` (the extras of the document and of every sub-document, each below its folder)
+        except META-INF/documentsignatures.xml ; META-INF/manifest.xml last.
   * `OpenDocument._saveXmlObjects`   → `saveXml` / `saveXmlKids`
         manifest "/" (top) or the folder ; styles.xml ; content.xml ; settings.xml iff
-        `settings.hasChildNodes()` ; meta.xml for the top only ; children `Object k/`, k = POSITION 1..
-  * `OpenDocument._savePictures`     → `savePics` / `savePicsKids`
-        every `Pictures` item (dict insertion order) at `folder + href`, ZIP_STORED, then the
-        children with the same positional numbering.
-  * `addPicture` / `addPictureFromFile` / `addPictureFromString` → `register` (a dict store:
-        same key overwrites in place, a new key is appended).  The href itself
-        ("Pictures/" + uuid4 + extension, or the caller's name) is an input of the model: uuid4 is an
-        injected fresh-name oracle, `mimetypes.guess_*` is not modelled.
-  * `addThumbnail`                   → field `thumbnail` (bytes + the `_thumbnail_mediatype` attribute that `load` sets
-        since f4df084; "" when the attribute is absent; `addThumbnail` itself never touches it)
-  * `addObject`                      → `attachIn` / `step` (history model for C16): the child is appended
-        to `childobjects`, its `folder` becomes `parent.folder + "/Object %d" % len(childobjects)`
-        (the parent's folder AT THAT TIME) or the explicit name; returned reference "." + folder.
-  * `load` (manifest-driven dispatch) → `load`; `odfmanifest.manifestlist` → `manifestlist`
-        (a dict keyed by full-path: a repeated path keeps its first position and the last value);
-        `__detectmimetype` → `detectMimetype`.
+        `settings.hasChildNodes()` ; meta.xml for the top only ; every child under
+        `child.folder[len(self.folder)+1:] + "/"` (`stor`) — the `folder` attribute is the single truth.
+  * `OpenDocument._savePictures`     → `savePics` / `savePicsKids` (same folders)
+  * `OpenDocument._allExtras`        → `saveExtras` / `saveExtrasKids`
+  * `addPicture` / `addPictureFromFile` / `addPictureFromString` → `register` (a dict store).  The href itself
+        ("Pictures/" + uuid4 + extension, or the caller's name) is an input of the model.
+  * `addThumbnail`                   → field `thumbnail` (bytes + the `_thumbnail_mediatype` attribute `load` sets)
+  * `addObject`                      → `attachIn` / `step` (history model for C16): names in use =
+        `c.folder[len(self.folder)+1:]` of the children; default name = first free "Object n" from
+        n = len(childobjects)+1; an explicit name loses its leading "/"s; a name in use raises ValueError
+        (nothing attached); the child is appended and `_setFolder(parent.folder + "/" + name)` moves it
+        and everything already attached to it (`setFolder`); returned reference "." + folder.
+  * `load`                            → `load`: `manifestlist` (dict), then for every key the chain of listed
+        "Object <digits>/" folders (`walk`, creating sub-documents on first sight: `ensure`), then the
+        dispatch on the name inside the sub-document (`loadEntry`); the `subdocs` dict is the flat list
+        `List Sub`, turned into the tree by `buildDoc`.  `__detectmimetype` → `detectMimetype`.
 
   Abstractions: `zipfile` = "append entry (name, method, extra, content)"; member names are taken
-  verbatim (true for names without NUL; `ZipFile.write` additionally runs normpath over the name of a
-  picture registered by file name — since 31ca861 the generated href is "Pictures/" + uuid + splitext
-  extension, which contains no path separator, so it is already normal).  The bodies of the XML
-  parts are opaque tokens `Content.part kind objectId` (their text is C01/C02's business); the body of
-  a picture registered by file name is the token `Content.file name` (whatever the file holds at save
-  time).  `time` is ignored.  `str.encode('utf-8')` raises on a lone surrogate (no package is
-  produced then); `utf8` is total and only meaningful for scalar values.
+  verbatim (true for names without NUL; `ZipFile.write` runs normpath over the name of a picture
+  registered by file name — "Pictures/" + uuid + splitext extension, already normal).  The bodies of the
+  XML parts are opaque tokens `Content.part kind objectId`; the body of a picture registered by file name
+  is the token `Content.file name`.  `time` is ignored.  `str.encode('utf-8')` raises on a lone surrogate
+  (no package is produced then); `utf8` is total.  The ghost `id` of a loaded sub-document is 1 + the
+  position of its folder entry among the manifest keys.  A document attached twice (or into itself) is
+  outside the model.
 -/
 import OdfModel.Basic
 namespace OdfModel.Pkg
@@ -215,20 +216,24 @@ def register (ps : List Pic) (p : Pic) : List Pic :=
 def xmlPart (F : Str) (k : PartKind) (name : Str) (id : Nat) : Out :=
   emFile (F ++ name) .deflated (.part k id) sTextXml
 
+/-- `subobject.folder[len(self.folder)+1:] + u'/'` — where `save` stores a sub-document (`L = len(self.folder)`
+    of the document being saved) -/
+def stor (L : Nat) (c : Doc) : Str := c.folder.drop (L+1) ++ sSlash
+
 mutual
 /-- `_saveXmlObjects(anObject, folder)`; `top` is the test `self == anObject` -/
-def saveXml (top : Bool) (F : Str) : Doc → Out
+def saveXml (L : Nat) (top : Bool) (F : Str) : Doc → Out
   | ⟨id, mt, hs, _, _, _, _, kids⟩ =>
     emM ⟨if top then sSlash else F, mt, true⟩
     ++ xmlPart F .styles sStyles id
     ++ xmlPart F .content sContent id
     ++ (if hs then xmlPart F .settings sSettings id else Out.empty)
     ++ (if top then emFile sMeta .deflated (.part .metadata id) sTextXml else Out.empty)
-    ++ saveXmlKids F 1 kids
-/-- the loop over `childobjects` with `subobjectnum` -/
-def saveXmlKids (F : Str) (k : Nat) : List Doc → Out
+    ++ saveXmlKids L kids
+/-- the loop over `childobjects` -/
+def saveXmlKids (L : Nat) : List Doc → Out
   | [] => Out.empty
-  | c :: cs => saveXml false (F ++ objPrefix k) c ++ saveXmlKids F (k+1) cs
+  | c :: cs => saveXml L false (stor L c) c ++ saveXmlKids L cs
 end
 
 def picContent : PicSrc → Content
@@ -243,72 +248,115 @@ def picsOut (F : Str) : List Pic → Out
 
 mutual
 /-- `_savePictures(anObject, folder)` -/
-def savePics (F : Str) : Doc → Out
-  | ⟨_, _, _, pics, _, _, _, kids⟩ => picsOut F pics ++ savePicsKids F 1 kids
-def savePicsKids (F : Str) (k : Nat) : List Doc → Out
+def savePics (L : Nat) (F : Str) : Doc → Out
+  | ⟨_, _, _, pics, _, _, _, kids⟩ => picsOut F pics ++ savePicsKids L kids
+def savePicsKids (L : Nat) : List Doc → Out
   | [] => Out.empty
-  | c :: cs => savePics (F ++ objPrefix k) c ++ savePicsKids F (k+1) cs
+  | c :: cs => savePics L (stor L c) c ++ savePicsKids L cs
 end
 
 def thumbOut : Option Thumb → Out
   | none => Out.empty
   | some t => emM ⟨sThumbDir, [], true⟩ ++ emFile sThumb .deflated (.bytes t.content) t.mediatype
 
-def extraOut (e : Extra) : Out :=
+/-- one iteration of the loop over `_allExtras` -/
+def extraOut (F : Str) (e : Extra) : Out :=
   if e.filename = sDocSig then Out.empty
   else match e.content with
-    | none => emM ⟨e.filename, e.mediatype, true⟩
-    | some b => emFile e.filename .deflated (.bytes b) e.mediatype
+    | none => emM ⟨F ++ e.filename, e.mediatype, true⟩
+    | some b => emFile (F ++ e.filename) .deflated (.bytes b) e.mediatype
 
-def extrasOut : List Extra → Out
+def extrasOut (F : Str) : List Extra → Out
   | [] => Out.empty
-  | e :: es => extraOut e ++ extrasOut es
+  | e :: es => extraOut F e ++ extrasOut F es
+
+mutual
+/-- `_allExtras(anObject)` followed by the writing loop -/
+def saveExtras (L : Nat) (F : Str) : Doc → Out
+  | ⟨_, _, _, _, _, ex, _, kids⟩ => extrasOut F ex ++ saveExtrasKids L kids
+def saveExtrasKids (L : Nat) : List Doc → Out
+  | [] => Out.empty
+  | c :: cs => saveExtras L (stor L c) c ++ saveExtrasKids L cs
+end
 
 /-- `__zipwrite` -/
 def save (d : Doc) : Out :=
   emZ ⟨sMimetype, .stored, [], .bytes (utf8 d.mimetype)⟩
-  ++ saveXml true [] d
-  ++ savePics [] d
+  ++ saveXml d.folder.length true [] d
+  ++ savePics d.folder.length [] d
   ++ thumbOut d.thumbnail
-  ++ extrasOut d.extras
+  ++ saveExtras d.folder.length [] d
   ++ emZ ⟨sManifestPath, .deflated, [], .manifestXml⟩
 
-/-! ### where each object of the tree lives (specification side of "folder") -/
+/-! ### where each object of the tree is stored -/
 
 mutual
-/-- every document of the tree with the folder given by its POSITION: "" for the top,
-    parent folder ++ "Object k/" for the k-th child -/
-def objects (F : Str) : Doc → List (Str × Doc)
-  | ⟨id, mt, hs, pics, th, ex, fo, kids⟩ => (F, ⟨id, mt, hs, pics, th, ex, fo, kids⟩) :: objectsK F 1 kids
-def objectsK (F : Str) (k : Nat) : List Doc → List (Str × Doc)
+/-- every document of the tree with the folder `save` stores it in: `F` for the document itself, `stor L c`
+    for every (direct or indirect) sub-document `c` -/
+def objects (L : Nat) (F : Str) : Doc → List (Str × Doc)
+  | ⟨id, mt, hs, pics, th, ex, fo, kids⟩ => (F, ⟨id, mt, hs, pics, th, ex, fo, kids⟩) :: objectsK L kids
+def objectsK (L : Nat) : List Doc → List (Str × Doc)
   | [] => []
-  | c :: cs => objects (F ++ objPrefix k) c ++ objectsK F (k+1) cs
+  | c :: cs => objects L (stor L c) c ++ objectsK L cs
 end
 
 /-! ### addObject: attachment histories (C16) -/
 
-def Doc.setFolder (d : Doc) (f : Str) : Doc := { d with folder := f }
+mutual
+/-- `_setFolder(folder)` -/
+def setFolder (folder : Str) : Doc → Doc
+  | ⟨id, mt, hs, pics, th, ex, fo, kids⟩ => ⟨id, mt, hs, pics, th, ex, folder, setFolderKids folder fo.length kids⟩
+/-- `for c in self.childobjects: c._setFolder(folder + c.folder[len(self.folder):])` -/
+def setFolderKids (folder : Str) (oldLen : Nat) : List Doc → List Doc
+  | [] => []
+  | c :: cs => setFolder (folder ++ c.folder.drop oldLen) c :: setFolderKids folder oldLen cs
+end
+
+/-- `while u"Object %d" % n in used: n += 1` (terminates within `len(used)+1` rounds) -/
+def freeNum : Nat → Nat → List Str → Nat
+  | 0, n, _ => n
+  | f+1, n, used => if used.contains (sObjectSp ++ dec n) then freeNum f (n+1) used else n
+
+/-- `objectname.lstrip(u"/")` -/
+def lstripSlash (s : Str) : Str := s.dropWhile (· == 47)
+
+/-- the name `addObject` uses: `none` = ValueError -/
+def objectName (fo : Str) (kids : List Doc) (name : Option Str) : Option Str :=
+  let used := kids.map (fun c => c.folder.drop (fo.length + 1))
+  let n := match name with
+    | none => sObjectSp ++ dec (freeNum (used.length + 1) (kids.length + 1) used)
+    | some x => lstripSlash x
+  if used.contains n then none else some n
+
+/-- outcome of looking a parent up in a tree and calling `addObject` on it -/
+inductive Attach (α : Type) where
+  | notFound
+  | valueError
+  | ok (t : α) (folder : Str)
 
 mutual
-/-- `p.addObject(c, name)` where `p` is looked up by id inside the tree; returns the new tree and the
-    folder given to `c` -/
-def attachIn (p : Nat) (c : Doc) (name : Option Str) : Doc → Option (Doc × Str)
+/-- `p.addObject(c, name)` where `p` is looked up by id inside the tree -/
+def attachIn (p : Nat) (c : Doc) (name : Option Str) : Doc → Attach Doc
   | ⟨id, mt, hs, pics, th, ex, fo, kids⟩ =>
     if id = p then
-      let f := match name with
-        | none => fo ++ sSlashObjectSp ++ dec (kids.length + 1)
-        | some n => n
-      some (⟨id, mt, hs, pics, th, ex, fo, kids ++ [c.setFolder f]⟩, f)
+      match objectName fo kids name with
+      | none => .valueError
+      | some n =>
+        let f := fo ++ sSlash ++ n
+        .ok ⟨id, mt, hs, pics, th, ex, fo, kids ++ [setFolder f c]⟩ f
     else match attachInK p c name kids with
-      | some (kids', f) => some (⟨id, mt, hs, pics, th, ex, fo, kids'⟩, f)
-      | none => none
-def attachInK (p : Nat) (c : Doc) (name : Option Str) : List Doc → Option (List Doc × Str)
-  | [] => none
+      | .ok kids' f => .ok ⟨id, mt, hs, pics, th, ex, fo, kids'⟩ f
+      | .valueError => .valueError
+      | .notFound => .notFound
+def attachInK (p : Nat) (c : Doc) (name : Option Str) : List Doc → Attach (List Doc)
+  | [] => .notFound
   | d :: ds => match attachIn p c name d with
-    | some (d', f) => some (d' :: ds, f)
-    | none => match attachInK p c name ds with
-      | some (ds', f) => some (d :: ds', f)
-      | none => none
+    | .ok d' f => .ok (d' :: ds) f
+    | .valueError => .valueError
+    | .notFound => match attachInK p c name ds with
+      | .ok ds' f => .ok (d :: ds') f
+      | .valueError => .valueError
+      | .notFound => .notFound
 end
 
 /-- `attach parent child name?` -/
@@ -318,32 +366,40 @@ structure Op where
   name : Option Str
 deriving Repr
 
-/-- the document that is going to be saved (`root`, id 0 by convention), the documents not yet attached
-    to anything (`pool`; each may already have objects of its own), and the references returned so far -/
+/-- the document that is going to be saved (`root`), the documents not yet attached to anything (`pool`; each
+    may already have objects of its own), and the references returned so far -/
 structure Hist where
   root : Doc
   pool : List Doc
   refs : List (Nat × Str × Str)   -- (child id, child media type, returned reference)
 deriving Repr
 
-/-- one `addObject` call.  `none` = outside the model (child unknown / already attached / is the root,
-    parent unknown or inside the child). -/
-def step (h : Hist) (op : Op) : Option Hist :=
+inductive StepRes where
+  | ok (h : Hist)
+  | valueError          -- the call raised ValueError; nothing changed
+  | unsupported         -- outside the model (child unknown / already attached / is the root, parent unknown or inside the child)
+
+/-- one `addObject` call -/
+def step (h : Hist) (op : Op) : StepRes :=
   match h.pool.find? (fun d => d.id == op.child) with
-  | none => none
+  | none => .unsupported
   | some c =>
     let pool := h.pool.filter (fun d => d.id != op.child)
     match attachIn op.parent c op.name h.root with
-    | some (root', f) => some ⟨root', pool, h.refs ++ [(c.id, c.mimetype, 46 :: f)]⟩
-    | none => match attachInK op.parent c op.name pool with
-      | some (pool', f) => some ⟨h.root, pool', h.refs ++ [(c.id, c.mimetype, 46 :: f)]⟩
-      | none => none
+    | .ok root' f => .ok ⟨root', pool, h.refs ++ [(c.id, c.mimetype, 46 :: f)]⟩
+    | .valueError => .valueError
+    | .notFound => match attachInK op.parent c op.name pool with
+      | .ok pool' f => .ok ⟨h.root, pool', h.refs ++ [(c.id, c.mimetype, 46 :: f)]⟩
+      | .valueError => .valueError
+      | .notFound => .unsupported
 
+/-- a whole history; a call that raises ValueError is skipped (the caller catches it) -/
 def run (h : Hist) : List Op → Option Hist
   | [] => some h
   | op :: ops => match step h op with
-    | some h' => run h' ops
-    | none => none
+    | .ok h' => run h' ops
+    | .valueError => run h ops
+    | .unsupported => none
 
 mutual
 def hasId (p : Nat) : Doc → Bool
@@ -353,21 +409,14 @@ def hasIdK (p : Nat) : List Doc → Bool
   | d :: ds => hasId p d || hasIdK p ds
 end
 
-/-- the op uses the default name, its parent already hangs under the root, and the child has no
-    objects of its own yet -/
-def orderedOp (h : Hist) (op : Op) : Bool :=
-  op.name.isNone && hasId op.parent h.root &&
-  (match h.pool.find? (fun d => d.id == op.child) with
-   | some c => c.children.isEmpty
-   | none => false)
-
-/-- **the decidable hypothesis of `ref_names_folder_partial`**: default names only, and every parent is
-    attached to the root chain before its children are attached -/
-def ordered (h : Hist) : List Op → Bool
+/-- **the decidable hypothesis of `ref_names_folder_partial`**: every parent hangs under the saved document at
+    the time it gets a child (references are handed out top-down) -/
+def parentsFirst (h : Hist) : List Op → Bool
   | [] => true
-  | op :: ops => orderedOp h op && (match step h op with
-    | some h' => ordered h' ops
-    | none => false)
+  | op :: ops => hasId op.parent h.root && (match step h op with
+    | .ok h' => parentsFirst h' ops
+    | .valueError => parentsFirst h ops
+    | .unsupported => false)
 
 /-- does reference `r` (as returned for the object with id `c` and media type `mt`) name a folder of
     `out` that holds `c`'s content.xml and styles.xml and that the manifest declares with `mt`?
@@ -410,61 +459,102 @@ def detectMimetype (p : Package) : Str :=
     | none => sOdt
 
 def isPicturePath (m : Str) : Bool := m.take 9 == sPictures && m.length > 9
-def isObjectFolder (m : Str) : Bool := m.take 7 == sObjectSp && m.length < 11 && m.getLast? == some 47
-def isXmlPart (m : Str) : Bool := m == sSettings || m == sMeta || m == sContent || m == sStyles
+/-- `name in (u'settings.xml', u'content.xml', u'styles.xml', u'')` -/
+def isParsedPart (m : Str) : Bool := m == sSettings || m == sContent || m == sStyles || m == []
 /-- `mentry in (u'/', u'Thumbnails/', u'mimetype', u'META-INF/manifest.xml')` -/
 def isRegenerated (m : Str) : Bool := m == sSlash || m == sThumbDir || m == sMimetype || m == sManifestPath
 
-/-- accumulated state of the dispatch loop of `load` -/
-structure LoadSt where
+def isDigit (c : Nat) : Bool := 48 ≤ c && c ≤ 57
+
+/-- `re.match(u"Object [0-9]+/", s)`: the matched text -/
+def objComp (s : Str) : Option Str :=
+  if s.take 7 == sObjectSp then
+    let ds := (s.drop 7).takeWhile isDigit
+    if !ds.isEmpty && (s.drop (7 + ds.length)).head? == some 47 then some (sObjectSp ++ ds ++ sSlash) else none
+  else none
+
+/-- one value of the `subdocs` dict: a (sub-)document under construction, keyed by its folder in the package -/
+structure Sub where
+  path : Str                -- "" for the top document, "Object 1/Object 2/" …
+  id : Nat
+  mimetype : Str
   pics : List Pic
   thumb : Option Thumb
-  kids : List Doc
   extras : List Extra
+  kids : List Str           -- the paths of its sub-documents, in attach order
 deriving Repr
 
 def settingsOf (p : Package) (keys : List Str) (F : Str) : Bool :=
   keys.contains (F ++ sSettings) && p.settingsNonEmpty.contains (F ++ sSettings)
   && (zread p.members (F ++ sSettings)).isSome
 
-/-- one iteration of `for mentry, mvalue in manifest.items()`; `none` = the KeyError / IndexError that
-    `load` lets escape -/
-def loadEntry (p : Package) (keys : List Str) (s : LoadSt) (e : Str × Str) : Option LoadSt :=
-  let m := e.1
-  if isPicturePath m then
-    match zread p.members m with
-    | some b => some { s with pics := register s.pics ⟨m, .image b, e.2⟩ }
-    | none => none
-  else if m == sThumb then
-    match zread p.members m with
-    | some b => some { s with thumb := some ⟨b, e.2⟩ }     -- (fix f4df084) the media type travels
-    | none => none
-  else if isXmlPart m then some s
-  else if isRegenerated m then some s        -- (fix 87ffca7) written afresh by save()
-  else if isObjectFolder m then
-    some { s with kids := s.kids ++ [⟨s.kids.length + 1, e.2, settingsOf p keys m, [], none, [],
-                                       47 :: m.dropLast, []⟩] }
-  else if m.take 7 == sObjectSp then some s
-  else match m.getLast? with
-    | none => none
+def updSub (path : Str) (f : Sub → Sub) (subs : List Sub) : List Sub :=
+  subs.map (fun s => if s.path == path then f s else s)
+
+/-- `if objectpath + m.group(0) not in subdocs:` create the sub-document and attach it to its parent -/
+def ensure (man : List (Str × Str)) (subs : List Sub) (parent comp : Str) : List Sub :=
+  let path := parent ++ comp
+  if subs.any (fun s => s.path == path) then subs
+  else updSub parent (fun s => { s with kids := s.kids ++ [path] }) subs
+        ++ [⟨path, (man.map (·.1)).idxOf path + 1, ((man.find? (fun e => e.1 == path)).map (·.2)).getD [], [], none, [], []⟩]
+
+/-- the `while True:` loop: follows the chain of listed object folders at the head of `rest`; returns the
+    `subdocs` and `objectpath` -/
+def walk (man : List (Str × Str)) : Nat → List Sub → Str → Str → List Sub × Str
+  | 0, subs, op, _ => (subs, op)
+  | f+1, subs, op, rest => match objComp rest with
     | some c =>
-      if c == 47 then some { s with extras := s.extras ++ [⟨m, e.2, none⟩] }
-      else match zread p.members m with
-        | some b => some { s with extras := s.extras ++ [⟨m, e.2, some b⟩] }
+      if (man.map (·.1)).contains (op ++ c) then walk man f (ensure man subs op c) (op ++ c) (rest.drop c.length)
+      else (subs, op)
+    | none => (subs, op)
+
+/-- the dispatch on one manifest entry, after the walk; `none` = the KeyError that `load` lets escape -/
+def loadEntry (p : Package) (subs : List Sub) (op : Str) (e : Str × Str) : Option (List Sub) :=
+  let name := e.1.drop op.length
+  if isPicturePath name then
+    match zread p.members e.1 with
+    | some b => some (updSub op (fun s => { s with pics := register s.pics ⟨name, .image b, e.2⟩ }) subs)
+    | none => none
+  else if e.1 == sThumb then
+    match zread p.members e.1 with
+    | some b => some (updSub [] (fun s => { s with thumb := some ⟨b, e.2⟩ }) subs)
+    | none => none
+  else if isParsedPart name || e.1 == sMeta then some subs
+  else if isRegenerated e.1 then some subs
+  else match name.getLast? with
+    | none => some subs          -- unreachable: the empty name is a parsed part
+    | some c =>
+      if c == 47 then some (updSub op (fun s => { s with extras := s.extras ++ [⟨name, e.2, none⟩] }) subs)
+      else match zread p.members e.1 with
+        | some b => some (updSub op (fun s => { s with extras := s.extras ++ [⟨name, e.2, some b⟩] }) subs)
         | none => none
 
-def loadLoop (p : Package) (keys : List Str) : LoadSt → List (Str × Str) → Option LoadSt
-  | s, [] => some s
-  | s, e :: es => match loadEntry p keys s e with
-    | some s' => loadLoop p keys s' es
+/-- `for mentry, mvalue in manifest.items():` -/
+def loadLoop (p : Package) (man : List (Str × Str)) : List Sub → List (Str × Str) → Option (List Sub)
+  | subs, [] => some subs
+  | subs, e :: es =>
+    let w := walk man e.1.length subs [] e.1
+    match loadEntry p w.1 w.2 e with
+    | some subs' => loadLoop p man subs' es
     | none => none
 
-/-- `load`: the top document gets id 0, the k-th created sub-document id k -/
+/-- the `folder` attribute `addObject(subdoc, "/" + name)` leaves on the sub-document stored in `path` -/
+def folderOfPath (path : Str) : Str := if path.isEmpty then [] else 47 :: path.dropLast
+
+/-- the tree of documents described by the `subdocs` dict (`none`: not reachable, kept total by fuel) -/
+def buildDoc (p : Package) (keys : List Str) (subs : List Sub) : Nat → Str → Option Doc
+  | 0, _ => none
+  | f+1, path => match subs.find? (fun s => s.path == path) with
+    | none => none
+    | some s => match s.kids.mapM (buildDoc p keys subs f) with
+      | some ks => some ⟨s.id, s.mimetype, settingsOf p keys path, s.pics, s.thumb, s.extras, folderOfPath path, ks⟩
+      | none => none
+
+/-- `load`: the top document gets id 0 -/
 def load (p : Package) : Option Doc :=
   let man := manifestlist p.manifest
-  let keys := man.map (·.1)
-  match loadLoop p keys ⟨[], none, [], []⟩ man with
-  | some s => some ⟨0, detectMimetype p, settingsOf p keys [], s.pics, s.thumb, s.extras, [], s.kids⟩
+  match loadLoop p man [⟨[], 0, detectMimetype p, [], none, [], []⟩] man with
+  | some subs => buildDoc p (man.map (·.1)) subs (subs.length + 1) []
   | none => none
 
 end OdfModel.Pkg
